@@ -52,7 +52,8 @@ CLAIMS = {
             'renet: Packet::to_bytes fails only when the buffer is shorter than the wire length and writes exactly that many bytes; a message-carrying packet that satisfies the channels\' packing bound is at most 1300 bytes, '
             'an Ack packet with at most 64 well-formed ranges at most 1041 bytes (Verus lemmas over the wire format). RenetClient::get_packets_to_send is proved verbatim (U16): every payload it returns is the serialization of one sendable packet and at most 1300 bytes long, '
             'packets are numbered consecutively, and serialization never fails (the connection status is unchanged). '
-            'Assumed there: the whole-function contract of SendChannelReliable::get_packets_to_send (its loop body is proved in U9; the lifting over BTreeMap::iter_mut and the 12 lines around the loop are not), '
+            'The reliable channel\'s whole get_packets_to_send is proved around its loop (U17): prologue, final flush, and a checked step function showing that the loop body\'s contract (U9) carries the loop invariant from one iteration to the next; '
+            'assumed there: only the induction over BTreeMap::iter_mut (rule D18, same assumption as D6); '
             'size assumptions that keep counters below 2^62 during one tick (per channel: at most 2^40 queued messages and 2^41 buffered bytes; packet sequence below 2^61; at most 256 send channels).'),
     'C16': ('Netcode prefix/sequence round trip for all u64 and all packet types, full encode->decode round trip for KeepAlive/Disconnect/Denied, body-level write->read '
             'round trips for Challenge/Response/Request (Kani, complete); ack list: denotes exactly the received set, newest 64 ranges (Verus). '
@@ -73,7 +74,7 @@ CLAIMS.update({
             'a reliable message or slice that does not fit stays queued untouched, an unreliable message that does not fit is dropped whole (Verus: SendChannelUnreliable::get_packets_to_send '
             'verbatim with loop invariants; body of the reliable send loop outlined by rule D6).',
             'Assumed: rule D6 (the outlined loop body is proved for an arbitrary element and loop state; that BTreeMap::iter_mut visits each entry once is std\'s protocol). '
-            'RenetClient::get_packets_to_send (U16, verbatim) threads one available_bytes through all channels in channel_send_order: the message bytes of all packets of a tick stay within available_bytes_per_tick (reliable channel by its assumed whole-function contract). Not decided: '
+            'RenetClient::get_packets_to_send (U16, verbatim) threads one available_bytes through all channels in channel_send_order: the message bytes of all packets of a tick stay within available_bytes_per_tick; the reliable channel\'s whole function is proved in U17 (loop induction assumed, rule D18). Not decided: '
             'the prologue/epilogue of SendChannelReliable::get_packets_to_send (early return, final flush) is not under contract.'),
     'C15': ('Per call of the reliable send loop body for an arbitrary message and any current_time >= last_sent: a small message is not re-sent before resend_time and is sent '
             '(timestamp = now, appended to the batch, budget charged) once it elapsed and the budget allows; every slice packet emitted is unacknowledged and due, its transmission time is recorded; '
